@@ -347,6 +347,10 @@ impl<const M: usize> Drv<M> {
         let s: String = stores.iter().map(|a| format!(" {}", a)).collect();
         let (q, c) = match &self.bump {
             Some(b) => {
+                // looking at the arena (Debug, in both forms) must not change it: the getters are read
+                // afterwards and compared with the model
+                std::hint::black_box(format!("{:?}{:#?}", b, b));
+                self.log_mark = track::log_len();
                 let lim = match b.allocation_limit() {
                     Some(l) => l.to_string(),
                     None => "-".into(),
